@@ -511,8 +511,20 @@ class SymDatetime:
     def __repr__(self): return 'SymDatetime(%s,%s)' % (self.o, self.us)
     def __str__(self): return '<symbolic datetime>'     # only ever used for messages; parsing it back fails loudly
     def __format__(self, spec): return '<symbolic datetime>'
-    def strftime(self, fmt): raise Unsupported('strftime of symbolic datetime')
-    def isoformat(self, *a): raise Unsupported('isoformat of symbolic datetime')
+    def strftime(self, fmt):
+        """supported: formats made of %Y %m %d %H %M %S %f and literal text -> a template string with symbolic numeric fields"""
+        from .symstr import SymStr, Field
+        codes = dict(Y = (self.year, 4), m = (self.month, 2), d = (self.day, 2), H = (self.hour, 2), M = (self.minute, 2), S = (self.second, 2), f = (self.microsecond, 6))
+        parts = []; i = 0
+        while i < len(fmt):
+            if fmt[i] == '%' and i + 1 < len(fmt):
+                if fmt[i + 1] not in codes: raise Unsupported('strftime code %%%s on a symbolic datetime' % fmt[i + 1])
+                v, w = codes[fmt[i + 1]]; parts.append(Field(v, w, fmt[i + 1])); i += 2
+            else: parts.append(fmt[i]); i += 1
+        return SymStr(parts)
+    def isoformat(self, sep = 'T', timespec = 'auto'):
+        if timespec != 'auto' or self.isdate: raise Unsupported('isoformat variant')
+        return self.strftime('%Y-%m-%d' + sep + '%H:%M:%S') if CUR.branch(self.us % 10**6 == 0) else self.strftime('%Y-%m-%d' + sep + '%H:%M:%S.%f')
     def timestamp(self): raise Unsupported('timestamp of symbolic datetime')
 
 class SymTime:
